@@ -315,6 +315,11 @@ fn de_dispatch(p: u64, q: u64, j: &str) -> Value {
     return "\n".join(L) + "\n"
 
 
+def target_dir():
+    """one cargo target directory for all generated crates: ts-rs, serde and serde_json are compiled once per feature set"""
+    return os.path.join(vlib.BUILD, "e2e-target")
+
+
 def build_and_run(ctx, tag, programs, features=(), env_extra=None, de_queries=None, no_default=False):
     """returns (per-program outputs [list of probe dicts], de_results or None), or (None, None) if the crate does not build"""
     d = os.path.join(vlib.BUILD, f"e2e-{tag}")
@@ -343,7 +348,7 @@ debug = false
     if not os.path.exists(p) or open(p).read() != src:
         open(p, "w").write(src)
     env = vlib.cargo_env()
-    env["CARGO_TARGET_DIR"] = os.path.join(d, "target")
+    env["CARGO_TARGET_DIR"] = target_dir()
     if env_extra:
         env.update(env_extra)
     rc, out = vlib.sh(["cargo", "build", "--offline", "--quiet"], cwd=d, env=env, timeout=6000)
@@ -352,7 +357,7 @@ debug = false
         ctx.log(f"e2e-{tag} build failed:\n" + out[-4000:])
         ctx.broken.append(f"compiled corpus e2e-{tag} does not build: " + " | ".join(errs)[:600])
         return None, None
-    binary = os.path.join(d, "target", "debug", f"e2e-{tag}")
+    binary = os.path.join(target_dir(), "debug", f"e2e-{tag}")
     cwd = os.path.join(vlib.SCRATCH, f"e2e-{tag}")
     os.makedirs(cwd, exist_ok=True)
     import subprocess
@@ -388,7 +393,7 @@ def run_de(ctx, tag, queries):
     """feed [program index, probe index, json text] triples to the compiled corpus binary's Deserialize dispatch"""
     import subprocess
     d = os.path.join(vlib.BUILD, f"e2e-{tag}")
-    binary = os.path.join(d, "target", "debug", f"e2e-{tag}")
+    binary = os.path.join(target_dir(), "debug", f"e2e-{tag}")
     cwd = os.path.join(vlib.SCRATCH, f"e2e-{tag}")
     inp = "\n".join(json.dumps(q) for q in queries) + "\n"
     pr = subprocess.run([binary, "de"], cwd=cwd, input=inp, stdout=subprocess.PIPE, stderr=subprocess.PIPE, text=True, timeout=3000)
@@ -402,7 +407,7 @@ def run_export(ctx, tag, how, out_dir, env_extra=None, clean=True):
     """run the compiled corpus binary in export mode; returns (per-program step results, {program index: {rel path: text}})"""
     import subprocess
     d = os.path.join(vlib.BUILD, f"e2e-{tag}")
-    binary = os.path.join(d, "target", "debug", f"e2e-{tag}")
+    binary = os.path.join(target_dir(), "debug", f"e2e-{tag}")
     if clean:
         shutil.rmtree(out_dir, ignore_errors=True)
     os.makedirs(out_dir, exist_ok=True)
